@@ -122,6 +122,7 @@ type runOut struct {
 	failCase string
 	stats    string
 	timedOut bool
+	lastCase string
 }
 
 var passedRe = regexp.MustCompile(`OK, passed (\d+) tests`)
@@ -136,11 +137,13 @@ func runTest(bin, tmp, tag, testName string, checks, seed int, timeout time.Dura
 	cmd.Env = append(append([]string{}, goEnv...), "VERIF_STATS="+stats, "VERIF_FAILCASE="+fail,
 		"VERIF_KNOWN="+filepath.Join(root, "known_findings.json"), "VERIF_ROOT="+root)
 	cmd.Env = append(cmd.Env, extraEnv...)
+	last := filepath.Join(tmp, "last-"+tag+".json")
+	cmd.Env = append(cmd.Env, "VERIF_LASTCASE="+last, "GORACE=halt_on_error=1")
 	var buf bytes.Buffer
 	cmd.Stdout = &buf
 	cmd.Stderr = &buf
 	err := cmd.Run()
-	ro := runOut{output: buf.String(), exitErr: err, stats: stats}
+	ro := runOut{output: buf.String(), exitErr: err, stats: stats, lastCase: last}
 	if m := passedRe.FindStringSubmatch(ro.output); m != nil {
 		ro.passed, _ = strconv.Atoi(m[1])
 	}
@@ -177,7 +180,7 @@ func runReplay(bin, tmp, id, file string) (failed bool, sigs []string, out strin
 		abs = filepath.Join(root, file)
 	}
 	cmd.Env = append(append([]string{}, goEnv...), "VERIF_REPLAY="+abs, "VERIF_ROOT="+root,
-		"VERIF_KNOWN="+filepath.Join(root, "known_findings.json"))
+		"VERIF_KNOWN="+filepath.Join(root, "known_findings.json"), "GORACE=halt_on_error=1")
 	b, err := cmd.CombinedOutput()
 	out = string(b)
 	for _, m := range replaySigRe.FindAllStringSubmatch(out, -1) {
@@ -185,6 +188,13 @@ func runReplay(bin, tmp, id, file string) (failed bool, sigs []string, out strin
 	}
 	if strings.Contains(out, "HARNESS-BUG") {
 		return false, nil, out, true
+	}
+	if strings.Contains(out, "WARNING: DATA RACE") {
+		sig := "race"
+		if m := raceFrameRe.FindStringSubmatch(out); m != nil {
+			sig = "race:" + strings.TrimPrefix(m[1], "github.com/hashicorp/hcl-lang/")
+		}
+		return true, append(sigs, sig), out, false
 	}
 	return err != nil, sigs, out, false
 }
@@ -342,7 +352,7 @@ func checkMain(id string, spec propSpec, tier string) int {
 			violations++
 			violationLines = append(violationLines, fmt.Sprintf("VIOLATION property=%s replay=%s", id, dst))
 		case spec.Race && strings.Contains(o.output, "DATA RACE"):
-			dst := saveText(id, "race", o.output)
+			dst := saveRace(id, o.lastCase, o.output)
 			fmt.Println(tail(o.output, 120))
 			violations++
 			violationLines = append(violationLines, fmt.Sprintf("VIOLATION property=%s replay=%s", id, dst))
@@ -550,4 +560,37 @@ func runFuzz(id string, spec propSpec, tmp string) (violationLine string, info m
 	}
 	fmt.Println(tail(out, 40))
 	return "", info, "fuzz campaign ended abnormally without a crasher: " + err.Error()
+}
+
+var raceFrameRe = regexp.MustCompile(`(?m)^  (github\.com/hashicorp/hcl-lang/[^\s(]+)`)
+
+// saveRace pairs a race report with the case that was running and stores both
+// as a replay case.
+func saveRace(id, lastCase, output string) string {
+	report := output
+	if i := strings.Index(report, "WARNING: DATA RACE"); i >= 0 {
+		report = report[i:]
+	}
+	if len(report) > 6000 {
+		report = report[:6000]
+	}
+	sig := "race"
+	if m := raceFrameRe.FindStringSubmatch(report); m != nil {
+		sig = "race:" + strings.TrimPrefix(m[1], "github.com/hashicorp/hcl-lang/")
+	}
+	var fc map[string]interface{}
+	if b, err := os.ReadFile(lastCase); err == nil {
+		_ = json.Unmarshal(b, &fc)
+	}
+	if fc == nil {
+		return saveText(id, "race", output)
+	}
+	fc["failures"] = []map[string]string{{"sig": sig, "msg": report}}
+	b, _ := json.MarshalIndent(fc, "", " ")
+	h := sha1.Sum(b)
+	dir := filepath.Join(root, "replays", id)
+	_ = os.MkdirAll(dir, 0o755)
+	name := fmt.Sprintf("found-%x.json", h[:6])
+	_ = os.WriteFile(filepath.Join(dir, name), b, 0o644)
+	return filepath.Join("replays", id, name)
 }
